@@ -1,5 +1,6 @@
 import XmppModel.Prelude.Hex
 import XmppModel.Model.Styling
+import XmppModel.Model.StylingSession
 /-!
 Driver for C17 (see harness/c17 for the line protocol).
 
@@ -11,6 +12,10 @@ Driver for C17 (see harness/c17 for the line protocol).
     dec <doc> <sizes> <dataEOF> <lim>    `NewDecoder` read to the end
                                          → `len:style:quote:info,…;<end>` (info hex, `~` = nil)
     longdec <pre> <n> <suf> <sizes> <dataEOF> <lim>   as `dec` for the document pre ++ n×"a" ++ suf
+    sess <doc,…> <sizes/…> <dataEOF bits> <ops>       a session of decoders used alternately from one goroutine:
+                                         ops `<k>c` NewDecoder for document k, `<k>n` Next(+Token), `<k>s` SkipSpan,
+                                         `<k>b` SkipBlock → one observation per op: `c` | `len:style:quote:info` |
+                                         `end:<err>:style:quote` | `s<ret>:<err>:style:quote` | `b<ret>:…` (err `nil` = no error yet)
 -/
 namespace XmppModel.Driver.C17
 open XmppModel XmppModel.Styling
@@ -50,8 +55,43 @@ def showEvent (e : Event) : String :=
   let info := match e.info with | none => "~" | some i => hexEncode i
   s!"{e.data.length}:{e.style.toNat}:{e.quote}:{info}"
 
+def parseOp (s : String) : Option (Nat × Op) :=
+  match s.toList.reverse with
+  | c :: ds => do
+    let i ← (String.ofList ds.reverse).toNat?
+    let op ← match c with
+      | 'c' => some Op.create | 'n' => some Op.next | 's' => some Op.skipSpan | 'b' => some Op.skipBlock
+      | _ => none
+    pure (i, op)
+  | [] => none
+
+def showErr : Option End → String
+  | none => "nil" | some e => showEnd e
+
+def showObs : Obs → String
+  | .created => "c"
+  | .tok e => showEvent e
+  | .nextEnd err st q => s!"end:{showEnd err}:{st.toNat}:{q}"
+  | .skip blk ret err st q => s!"{if blk then "b" else "s"}{showBool ret}:{showErr err}:{st.toNat}:{q}"
+  | .invalid => "!"
+  | .fuel => "FUEL"
+
+def zip3? {α β γ} : List α → List β → List γ → Option (List (α × β × γ))
+  | [], [], [] => some []
+  | a :: as, b :: bs, c :: cs => (zip3? as bs cs).map ((a, b, c) :: ·)
+  | _, _, _ => none
+
 def handle (args : List String) : Option String :=
   match args with
+  | ["sess", docs, sizes, deofs, ops] => do
+    let ds ← mapM? hexDecode (docs.splitOn ",")
+    let szs ← mapM? parseNatList (sizes.splitOn "/")
+    let des ← mapM? (fun c => parseBool (String.singleton c)) deofs.toList
+    let os ← mapM? parseOp (splitList ops)
+    let decs ← zip3? ds szs des
+    match mapM? (fun (d, sz, de) => Api.ofDecode (decode none ⟨sz, de⟩ d)) decs with
+    | none => pure "PANIC"
+    | some st => pure (joinList ((runOps st os).map (fun o => showObs o.2)))
   | ["hist", doc, calls] => do
     let d ← hexDecode doc
     let cs ← mapM? parseCall (splitList calls)
